@@ -38,6 +38,9 @@ pub fn install_quiet_panic_hook() {
         };
         let loc = info.location().map(|l| format!("{}:{}", l.file(), l.line())).unwrap_or_default();
         LAST_PANIC.with(|p| *p.borrow_mut() = Some(format!("{} @ {}", msg, loc)));
+        if let Ok(mut g) = crate::monitor::ANY_THREAD_PANIC.lock() {
+            *g = Some((format!("{} @ {}", msg, loc), String::new()));
+        }
         if !QUIET.with(|q| q.get()) {
             eprintln!("panic: {} @ {}", msg, loc);
         }
@@ -49,7 +52,9 @@ pub fn catch<T>(f: impl FnOnce() -> T) -> Result<T, String> {
     LAST_PANIC.with(|p| *p.borrow_mut() = None);
     match std::panic::catch_unwind(std::panic::AssertUnwindSafe(f)) {
         Ok(v) => Ok(v),
-        Err(_) => Err(LAST_PANIC.with(|p| p.borrow_mut().take()).unwrap_or_else(|| "panic".into())),
+        // a panic raised on one of lopdf's pool threads is re-raised here without its message: fall back to
+        // the most recent message recorded on any thread (best effort when several shards fail at once)
+        Err(_) => Err(LAST_PANIC.with(|p| p.borrow_mut().take()).or_else(|| crate::monitor::ANY_THREAD_PANIC.lock().ok().and_then(|g| g.as_ref().map(|x| format!("{} (raised on a helper thread)", x.0)))).unwrap_or_else(|| "panic".into())),
     }
 }
 
